@@ -630,11 +630,16 @@ func (e *Engine) report(o *checkOpts, units []*Unit, start time.Time, loadSecs, 
 			if !contains(ob.Props, prop) || ob.Skip {
 				continue
 			}
-			if ob.Vacuity && ob.Kind == "cover" && strings.Contains(ob.Name, "#cover:return-reachable@") {
-				g := retCover[ob.Unit]
+			if ob.Vacuity && ob.Kind == "cover" && (strings.Contains(ob.Name, "#cover:return-reachable@") || strings.Contains(ob.Name, "#cover:invariant-satisfiable@")) {
+				// judged as a group: some explored paths are infeasible, which is not vacuity
+				gk := ob.Unit
+				if strings.Contains(ob.Name, "#cover:invariant-satisfiable@") {
+					gk = ob.Name
+				}
+				g := retCover[gk]
 				if g == nil {
 					g = &retGroup{ob: ob}
-					retCover[ob.Unit] = g
+					retCover[gk] = g
 				}
 				switch ob.Result.Status {
 				case "sat":
@@ -671,9 +676,13 @@ func (e *Engine) report(o *checkOpts, units []*Unit, start time.Time, loadSecs, 
 				fails = append(fails, failure{name: ob.Name, reason: "undecided:" + ob.Result.Status, detail: ob.Result.Raw, ob: ob})
 			}
 		}
-		for unit, g := range retCover {
+		for gk, g := range retCover {
 			if g.sat == 0 && g.unknown == 0 && g.unsat > 0 {
-				fails = append(fails, failure{name: unit + "#cover:some-return-reachable", reason: "vacuous", detail: "no return of this unit is reachable under its preconditions, callee contracts and loop invariants: its postconditions hold vacuously", ob: g.ob})
+				if strings.Contains(gk, "#cover:") {
+					fails = append(fails, failure{name: gk, reason: "vacuous", detail: "the assumed loop invariant is unsatisfiable on every explored path to this loop: the loop body and everything after it hold vacuously", ob: g.ob})
+				} else {
+					fails = append(fails, failure{name: gk + "#cover:some-return-reachable", reason: "vacuous", detail: "no return of this unit is reachable under its preconditions, callee contracts and loop invariants: its postconditions hold vacuously", ob: g.ob})
+				}
 			}
 		}
 		// group failures by obligation name; match known findings
